@@ -11,6 +11,7 @@ import (
 
 	"github.com/inbucket/inbucket/v3/pkg/extension/event"
 	"github.com/inbucket/inbucket/v3/pkg/policy"
+	"github.com/inbucket/inbucket/v3/pkg/storage"
 	"github.com/inbucket/inbucket/v3/pkg/vrt/vsched"
 
 	"verif/fw"
@@ -54,6 +55,9 @@ func c16OrdSpecs() []c16OrdSpec {
 		// and is gone has its one 'deleted' event, a message that is still there has none
 		{ID: "O7-file-purge-vs-delivery", Store: sys.StoreSpec{Backend: "file"}, Init: []string{"deliver x", "deliver x"},
 			Ops: []string{"purge x"}, Ops2: []string{"deliver x"}, Racing: true, Bound: [2]int{2, 3}},
+		// the retention scanner walks the store while the first message ever arrives in a mailbox
+		{ID: "O9-mem-scan-vs-first-delivery", Store: sys.StoreSpec{Backend: "mem"}, Init: []string{"deliver y"},
+			Ops: []string{"scan"}, Ops2: []string{"deliver x"}, Bound: [2]int{2, 3}},
 		{ID: "O8-mem-purge-vs-delivery", Store: sys.StoreSpec{Backend: "mem"}, Init: []string{"deliver x", "deliver x"},
 			Ops: []string{"purge x"}, Ops2: []string{"deliver x"}, Racing: true, Bound: [2]int{2, 3}},
 	}
@@ -130,6 +134,9 @@ func c16OrdScenario(c *fw.Ctx, sp c16OrdSpec) schedScenario {
 								}
 							case "purge":
 								_ = st.PurgeMessages(f[1])
+							case "scan":
+								// what the retention scanner does on every pass (nothing is old enough to go)
+								_ = st.VisitMailboxes(func(ms []storage.Message) bool { return true })
 							}
 						}
 					}
